@@ -7,7 +7,7 @@ from collections import Counter
 from . import enc_common as E
 import vlib
 
-THEOREM_FILES = ['C03', 'C04', 'C01', 'Enc', 'EncOps1', 'EncOps2', 'EncOps3', 'EncOps4', 'EncDefs']
+THEOREM_FILES = ['C03', 'C03b', 'C04', 'C01', 'Enc', 'EncOps1', 'EncOps2', 'EncOps3', 'EncOps4', 'EncDefs']
 ASSUMPTIONS = ['label values and pc come from the layout (property C02); here the instruction address is computed by the generator from the filler it emitted']
 
 def filler(rng, words, kind):
